@@ -25,7 +25,7 @@ import (
 // ---------- specification of a history ----------
 
 type legSpec struct {
-	Ch      int    // 0 or 1: channel the leg leaves through
+	Ch      int    // 0..3: channel the leg leaves through
 	Retries uint32 // metadata.retries
 	Bad     string // "", "channel" (unknown channel), "port" (a port without transfer channels), "timeout" (0s)
 }
@@ -58,6 +58,7 @@ type history struct {
 	Wired      bool // the harness supplies IbcKeeperFn (true) or the application's own wiring is used (false)
 	Pkts       []pktSpec
 	Ops        []op
+	Align      bool // before the first relay, pad the channels of packet 0's change and forward legs to the same next sequence
 	Drain      bool // after Ops, deliver outcomes (chosen from DrainKinds round-robin) until no leg is live
 	DrainKinds []string
 }
@@ -197,6 +198,10 @@ func chNum(ch string) int64 {
 		return 0
 	case chanB:
 		return 1
+	case chanC:
+		return 2
+	case chanD:
+		return 3
 	}
 	return 99
 }
@@ -209,9 +214,10 @@ type legState struct {
 	Denom   int64 // 1 = denomIn, 2 = quote
 	Amt     *big.Int
 	Cur     channeltypes.Packet
-	Live    bool  // sent and not successfully acknowledged / timed out for good
-	Pending bool  // no final outcome submitted yet
-	Outcome int64 // final outcome code submitted (0 none)
+	Live    bool     // sent and not successfully acknowledged / timed out for good
+	Pending bool     // no final outcome submitted yet
+	Outcome int64    // final outcome code submitted (0 none)
+	First   [2]int64 // index under which the leg was first sent
 }
 
 type pktState struct {
@@ -278,7 +284,7 @@ func (r *runner) observe() rawView {
 	for _, a := range e.rcv {
 		v.Bal = append(v.Bal, z(e.bal(a, e.denomIn)), z(e.bal(a, quote)))
 	}
-	v.Nseq = []string{emit.ZI(int64(e.nextSeqSend(chanA))), emit.ZI(int64(e.nextSeqSend(chanB)))}
+	v.Nseq = []string{emit.ZI(int64(e.nextSeqSend(chanA))), emit.ZI(int64(e.nextSeqSend(chanB))), emit.ZI(int64(e.nextSeqSend(chanC))), emit.ZI(int64(e.nextSeqSend(chanD)))}
 	inc := e.incoming()
 	out := e.outgoing()
 	v.Ninc, v.Nout = len(inc), len(out)
@@ -565,7 +571,7 @@ func (r *runner) doRecv(pi int) {
 		}
 		for _, l := range legs {
 			d, amt, _ := r.legDenom(l.Data)
-			ls := &legState{Key: p.Key, Fwd: d == 2, Denom: d, Amt: amt, Cur: l, Live: true, Pending: true}
+			ls := &legState{Key: p.Key, Fwd: d == 2, Denom: d, Amt: amt, Cur: l, Live: true, Pending: true, First: [2]int64{chNum(l.SourceChannel), int64(l.Sequence)}}
 			j := 0
 			if ls.Fwd {
 				j = 1
@@ -708,6 +714,16 @@ func (e *env) runHistory(h history) (term string, info map[string]any, r *runner
 	for pi := range r.pk {
 		r.send(pi)
 	}
+	if h.Align && len(h.Pkts) > 0 && h.Pkts[0].Change != nil && h.Pkts[0].Forward != nil && h.Pkts[0].Change.Ch != h.Pkts[0].Forward.Ch &&
+		h.Pkts[0].Change.Bad == "" && h.Pkts[0].Forward.Bad == "" {
+		cx, cy := chName(h.Pkts[0].Change.Ch), chName(h.Pkts[0].Forward.Ch)
+		n := e.nextSeqSend(cx)
+		if m := e.nextSeqSend(cy); m > n {
+			n = m
+		}
+		e.pad(cx, n)
+		e.pad(cy, n)
+	}
 	init := r.observe()
 	for _, o := range h.Ops {
 		if o.Leg < 0 {
@@ -780,7 +796,7 @@ func (e *env) runHistory(h history) (term string, info map[string]any, r *runner
 	term = fmt.Sprintf("{| h_cfg := %s; h_rcvs := [10; 11; 12]; h_keys := %s; h_idxs := %s; h_init := %s; h_steps := %s; h_final := %s |}",
 		cfgTerm(wired), emit.List(kt), emit.List(it), viewTerm(init, keys, r.idxs), emit.List(steps), emit.Bool(final))
 	info = map[string]any{"name": h.Name, "wired_by_harness": h.Wired, "wired_by_app": e.nativeFn != nil, "packets": h.Pkts, "ops": h.Ops,
-		"drain": h.Drain, "drain_kinds": h.DrainKinds, "trace": r.trace}
+		"drain": h.Drain, "drain_kinds": h.DrainKinds, "align": h.Align, "trace": r.trace}
 	var acc []bool
 	for _, p := range r.pk {
 		acc = append(acc, p.Accepted)
